@@ -651,10 +651,20 @@ func TestVerifC26(t *testing.T) {
 	}
 	rep := vfNewReport("C26", "generated op sequences on the real cdc.Queue (Bolt file): enqueue (just above / at or below / far above the highest index, near 2^64-2, empty and non-empty data), delete-range (inside, at, beyond the stored range), consume, query after every op, reopen between arbitrary ops; plus child processes killed with SIGKILL after a random number of acknowledged ops. A sequence is non-trivial when it has at least one accepted and one ignored enqueue, one emission, one effective delete and one reopen or kill; distinct by op text")
 	defer rep.Write()
-	dir := t.TempDir()
+	dir := t.TempDir() // on disk: used by the kill -9 sequences
+	// in-process sequences never need the sync to reach a device: use a memory-backed
+	// directory when there is one, so that run time does not depend on disk contention
+	fast := dir
+	if st, err := os.Stat("/dev/shm"); err == nil && st.IsDir() {
+		if d, err := os.MkdirTemp("/dev/shm", "verif-c26-"); err == nil {
+			fast = d
+			defer os.RemoveAll(d)
+		}
+	}
 	r := vfNewRng(26)
 
 	var segOps, segImpl [][]string
+	tStart := time.Now()
 
 	// cost of one accepted enqueue on this machine (calibrates the kill delay only)
 	if mq, err := c26Open(filepath.Join(dir, "measure.db")); err == nil {
@@ -706,7 +716,7 @@ func TestVerifC26(t *testing.T) {
 			}
 		}
 		full := c26WithQueries(ops)
-		res, err := c26RunInProc(filepath.Join(dir, "q.db"), full)
+		res, err := c26RunInProc(filepath.Join(fast, "q.db"), full)
 		if err != nil {
 			t.Fatalf("harness: %v", err)
 		}
@@ -716,6 +726,8 @@ func TestVerifC26(t *testing.T) {
 		c26Classify(rep, ops, res)
 	}
 
+	tPhase := time.Now()
+	rep.Note("phase 1 (in-process sequences) took %d ms", time.Since(tStart).Milliseconds())
 	// 2. drain sequences: ops then consume until none, progress judged by the spec
 	drains := vfScale(120, 3000)
 	for s := 0; s < drains; s++ {
@@ -729,7 +741,7 @@ func TestVerifC26(t *testing.T) {
 			ops = append(ops, "consume")
 		}
 		ops = append(ops, "query")
-		res, err := c26RunInProc(filepath.Join(dir, "q.db"), ops)
+		res, err := c26RunInProc(filepath.Join(fast, "q.db"), ops)
 		if err != nil {
 			t.Fatalf("harness: %v", err)
 		}
@@ -751,8 +763,10 @@ func TestVerifC26(t *testing.T) {
 		segImpl = append(segImpl, res.out)
 	}
 
+	rep.Note("phase 2 (drain sequences) took %d ms", time.Since(tPhase).Milliseconds())
+	tPhase = time.Now()
 	// 3. kill -9 of a child process at random points
-	kills := vfScale(8, 400)
+	kills := vfScale(6, 400)
 	for s := 0; s < kills; s++ {
 		res, ok := c26KillSequence(t, rep, r, dir, 2+r.Intn(3))
 		rep.Count("kill-sequences")
@@ -766,7 +780,10 @@ func TestVerifC26(t *testing.T) {
 		}
 	}
 
+	rep.Note("phase 3 (kill sequences) took %d ms", time.Since(tPhase).Milliseconds())
+	tPhase = time.Now()
 	rep.vfCompareSegments("fifo", segOps, segImpl)
+	rep.Note("model run took %d ms", time.Since(tPhase).Milliseconds())
 }
 
 // c26Classify records the input distribution of one in-process sequence.
